@@ -142,8 +142,7 @@ fn known_class(c: &SegCase, rb: &[SObs]) -> i64 {
     let partial = c.m.iter().zip(rb.iter().skip(c.p.len())).any(|(o, ob)| matches!(o, Op::Ins(r) if r.len() >= 2) && matches!(ob.res, Res::Err(_)));
     if c.m.iter().any(is_del) { return if !sch.keyed() { 1 } else if sch.int_pk() { 8 } else { 9 }; }
     if sch.keyed() && c.m.iter().any(is_kupd) { return if sch.int_pk() { 2 } else { 10 }; }
-    if sch.int_pk() && sch.sec && c.m.iter().any(|o| o.is_write()) { return 3; }
-    if sch.int_pk() && c.m.iter().any(is_upd) && c.p.iter().any(is_del) { return 4; }
+    if sch.sec && (c.m.iter().any(|o| matches!(o, Op::Upd(1, _, _))) || (sch.int_pk() && c.m.iter().any(|o| o.is_write()))) { return 3; }
     if partial { return 5; }
     if sch.int_pk() && c.m.iter().any(is_ins) && c.p.iter().chain(c.t.iter()).any(|o| is_kupd(o) || is_undo(o)) { return 7; }
     0
@@ -231,10 +230,10 @@ fn gen_case(rng: &mut Rng) -> (SegCase, &'static str) {
     let int_pk = sch.int_pk();
     let segtype = match rng.below(20) { 0..=9 => 0, 10..=12 => 1, _ => 2 }; // 0 begin..rollback, 1 begin..drop, 2 savepoint
     // what the body of M may contain
-    let m_al = if clean { Allow { del: false, kupd: false, upd1: true, multi: rng.chance(1, 2) } } else { Allow { del: true, kupd: true, upd1: true, multi: true } };
+    let m_al = if clean { Allow { del: false, kupd: false, upd1: !sch.sec, multi: rng.chance(1, 2) } } else { Allow { del: true, kupd: true, upd1: true, multi: true } };
     // the prefix
-    let p_al = if clean { Allow { del: !int_pk, kupd: false, upd1: !(int_pk && sch.sec), multi: true } } else { Allow { del: true, kupd: true, upd1: true, multi: true } };
-    let t_al = if clean { Allow { del: true, kupd: false, upd1: !(int_pk && sch.sec), multi: false } } else { Allow { del: true, kupd: true, upd1: true, multi: true } };
+    let p_al = if clean { Allow { del: true, kupd: false, upd1: true, multi: true } } else { Allow { del: true, kupd: true, upd1: true, multi: true } };
+    let t_al = if clean { Allow { del: true, kupd: false, upd1: true, multi: false } } else { Allow { del: true, kupd: true, upd1: true, multi: true } };
     let mut p: Vec<Op> = vec![];
     if rng.chance(85, 100) { p.push(seed_rows(rng, &d)); }
     for _ in 0..rng.below(5) {
